@@ -84,7 +84,7 @@ class ProtoHarness(object):
     def havoc(fr):
       pass
     self.ip.loops[(RL + '.__contains__', 0)] = LoopSpec('for regex in self.regex_list', inv, havoc,
-                                                          locals_modified=['regex'])
+                                                          locals_modified=[])
 
 
 # ------------------------------------------------------------------------------------------------
@@ -114,6 +114,8 @@ OBJ_FLOAT_OK = z3.Function('float_accepts', PyObjS, z3.BoolSort())
 OBJ_FLOAT_KIND = z3.Function('float_of_kind', PyObjS, z3.IntSort())
 OBJ_FLOAT_VAL = z3.Function('float_of_value', PyObjS, z3.RealSort())
 ITERABLE = z3.Function('is_iterable', PyObjS, z3.BoolSort())
+IS_TUPLE = z3.Function('is_tuple', PyObjS, z3.BoolSort())
+TUPLE_LEN = z3.Function('tuple_len', PyObjS, z3.IntSort())
 ITEMS = z3.Function('iter_items', PyObjS, z3.SeqSort(PyObjS))
 
 
@@ -266,6 +268,9 @@ class PyAny(Model):
   def py_getattr(self, ip, name):
     # plain data other than str has no .encode (bytes, numbers, None, containers)
     raise PyRaise(ExcVal('AttributeError', (name,)))
+
+  def tuple_len_other_than(self, ip, n):
+    return z3.And(IS_TUPLE(self.term), TUPLE_LEN(self.term) != n)
 
   def as_symseq(self, ip):
     if not ip.ctx.branch(ITERABLE(self.term), 'payload iterable'):
